@@ -109,7 +109,7 @@ func vRecLen(kind int) int {
 	case vKindDevField:
 		return 4
 	}
-	return 9 // lap
+	return 9 // lap, activity
 }
 
 // H16b: the unknown lists are sorted. Three arbitrary keys are counted in an
